@@ -43,8 +43,8 @@ REQUIRED_MONITORS = ["inputs-intact", "writes-confined", "outputs-right", "isola
 
 KINDS = ["v10-xml", "v10-json", "v10-yaml", "v11-xml", "v11-json", "v11-yaml", "empty", "text", "malformed-xml",
          "other-vocabulary", "v10-unnamed-section", "empty-json", "text-json", "empty-yaml", "text-yaml", "yaml-not-odml",
-         "v10-xml-latin1", "v10-xml-utf16", "malformed-xml-v11"]
-EXT = {"v10-xml": ".xml", "v10-json": ".json", "v10-yaml": ".yaml", "v11-xml": ".xml", "v11-json": ".json",
+         "v10-xml-latin1", "v10-xml-utf16", "malformed-xml-v11", "dangling-link-v11"]
+EXT = {"dangling-link-v11": ".xml", "v10-xml": ".xml", "v10-json": ".json", "v10-yaml": ".yaml", "v11-xml": ".xml", "v11-json": ".json",
        "v11-yaml": ".yaml", "empty": ".xml", "text": ".xml", "malformed-xml": ".odml", "other-vocabulary": ".xml",
        "v10-unnamed-section": ".xml", "empty-json": ".json", "text-json": ".json", "empty-yaml": ".yaml",
        "text-yaml": ".yaml", "yaml-not-odml": ".yaml", "v10-xml-latin1": ".xml", "v10-xml-utf16": ".xml", "malformed-xml-v11": ".xml"}
@@ -82,7 +82,9 @@ def make_file(rng, kind_, path):
             # values that begin / end with a bracket inside a list of values (concentrations, intervals)
             spec["sections"][0]["properties"].append(
                 {"k": "prop", "id": gen.new_id(rng), "name": "ions", "dtype": "string",
-                 "values": rng.choice([["[Ca2+]", "[Mg2+]"], ["[0 255]", "open)", "(1 2]"], ["x", "[[nested]]"]]),
+                 "values": rng.choice([["[Ca2+]", "[Mg2+]"], ["[0 255]", "open)", "(1 2]"], ["x", "[[nested]]"],
+                                       # first / last values that need quoting in the list text
+                                       ["Smith, John", "Miller", "Doe, Jane"], ['say "hi"', "plain", 'the "end"']]),
                  "unit": None, "uncertainty": None, "reference": None, "definition": None, "dependency": None,
                  "dependency_value": None, "value_origin": None, "val_cardinality": None})
         try:
@@ -103,6 +105,11 @@ def make_file(rng, kind_, path):
             text = json.dumps(emit.dict_from_model(spec, rng), indent=1)
         else:
             text = yaml.safe_dump(emit.dict_from_model(spec, rng), allow_unicode=True)
+    elif kind_ == "dangling-link-v11":
+        # a 1.1 file that loads and validates, but whose link cannot be resolved: nothing to convert (it is 1.1 already),
+        # and no RDF can be made of it
+        text = ('<?xml version="1.0" encoding="UTF-8"?>\n<odML version="1.1">\n<section><name>holder</name><type>t</type>'
+                '<link>/nowhere/at all</link></section>\n<section><name>plain</name><type>t</type></section>\n</odML>\n')
     elif kind_ in ("empty", "empty-json", "empty-yaml"):
         text = ""
     elif kind_ == "text-json":
@@ -195,6 +202,8 @@ def check_outputs_cli(rec, tool, files, out_dirs, report, case, recursive, indir
             for d in out_dirs:
                 for dp, _, fns in os.walk(d):
                     for fn in fns:
+                        if info["kind"] == "dangling-link-v11" and fn.endswith(".xml"):
+                            continue    # the 1.1 XML the tool makes of every source on its way to RDF is fine; no RDF can follow
                         if os.path.splitext(fn)[0] in (base, base + "_conv"):
                             rec.violation("%s/unconvertible-file-has-output:%s" % (tool, info["kind"]),
                                           "%s -> %s" % (os.path.basename(path), fn), case)
